@@ -5,7 +5,8 @@ tokens / syntax tree / formula, or the class FormulaParsingError / SyntaxError /
 real entry points against the Lean model:
 * `DefaultFormulaParser(flags).get_terms(s)` on exhaustive short strings over an adversarial alphabet, random Unicode strings,
   mutated valid formulas, multistage nestings, exponent literals, a fixed table of Python fragments with degenerate back-quoted
-  names, Python fragments CPython cannot digest, parsers with a history (reconfigured / pickled / deep-copied);
+  names, a fixed table of Python fragments over every kind of AST node (lambdas with every argument-list field, comprehensions, …)
+  in every position of a formula, Python fragments CPython cannot digest, parsers with a history (reconfigured / pickled / deep-copied);
 * every entry point around it (`api`): `parse(target=…)` with int / str / enum targets, `get_tokens`, `get_ast`, `get_terms`, on
   `DefaultFormulaParser` and on the base class `FormulaParser(operator_resolver=DefaultOperatorResolver(<flag names>))`;
 * `Formula(<list / tuple / dict / keyword specification>)` with string, Term, Formula and non-specification leaves (`spec`);
@@ -48,7 +49,7 @@ RULE = (
     "quick: all strings of length <=3 over the 21-symbol alphabet a b 1 0 + - * : / ^ ( ) [ ] ~ | ` { } space . (9724 strings) "
     "+ random strings over an extended alphabet incl. quotes, %, dots, commas, non-ASCII letters/digits/spaces (length<=12) + mutated "
     "grammar-derived formulas, each with a random feature-flag subset and intercept setting; thorough: length<=4 exhaustively (204205); plus 'reconfig' cases: a parser that was used under wider feature flags and then narrowed with set_feature_flags, or that was pickled and restored / deep-copied after use, must behave like a fresh parser with the same flags; and 10x the random streams. "
-    "Fixed tables run on every seed: exponent literals (incl. exponents above the number of terms, checked against the literal n-fold product of the model); `degenerate`: 44 degenerate back-quoted names x 15 Python-fragment shapes + 9 positions (lhs of ~, multi-part, multistage); `deepfrag`: Python fragments nested 600-1200 deep / NUL / lone surrogates (CPython's RecursionError, MemoryError, UnicodeEncodeError); `bigexp`: exponents of 2..5000 digits (oracle only); multistage nestings 120/200/400 deep (C14-F3). "
+    "Fixed tables run on every seed: exponent literals (incl. exponents above the number of terms, checked against the literal n-fold product of the model); `degenerate`: 44 degenerate back-quoted names x 15 Python-fragment shapes + 9 positions (lhs of ~, multi-part, multistage); `astfrag`: 105 Python expressions covering every field of ast.arguments (positional-only, keyword-only with and without default, *args, **kw, defaults that refer to columns, nested lambdas), comprehensions with several generators and conditions, conditional expressions, walrus, starred calls, f-strings, subscripts/slices, displays, plus malformed ones, each as brace / call fragment in 8 positions (lhs and rhs of `~`, `|` parts on both sides, both sides at once, multistage parts, alone) + random mixes from a small expression grammar (the variable scan of left-hand-side tokens must not let an exception escape); `deepfrag`: Python fragments nested 600-1200 deep / NUL / lone surrogates (CPython's RecursionError, MemoryError, UnicodeEncodeError); `bigexp`: exponents of 2..5000 digits (oracle only); multistage nestings 120/200/400 deep (C14-F3). "
     "`api`: targeted + random strings x parser {DefaultFormulaParser, base FormulaParser} x target {0..3, names in any case, enum, get_tokens/get_ast/get_terms} x feature flags as a set of names (any case, aliases default/all/none; 2% bogus names, 2% bogus targets); `spec`: random specification trees (depth<=3: str / list of str, Term, junk / tuple / dict / Formula object / non-specification leaf) x _parser x _nested_parser x keyword structure; `resolve`: operator tokens made of sign runs and operator characters (length<=8, plus runs of 40-100 signs). "
     "non-trivial = contains an operator or bracket character; distinct by canonical JSON"
 )
@@ -130,6 +131,7 @@ def cases(rng, tier):
     yield from degenerate_cases(rng, tier, nrand)
     yield from api_cases(rng, tier, nrand)
     yield from deep_fragment_cases(rng, tier)
+    yield from ast_fragment_cases(rng, tier, nrand)
     yield from big_exponent_cases(rng, tier)
     yield from spec_cases(rng, tier, nrand)
     yield from resolve_cases(rng, tier, nrand)
@@ -259,6 +261,126 @@ def api_cases(rng, tier, nrand):
             via = "parse"
         yield dict(kind="api", s=s, cfg=cfg, parser=parser, target=target, via=via, flags=flags, bogus=bogus,
                    avail=rng.choice([None, ["a", "b", "x"]]), availvia=rng.choice(["key", "key", "layer"]))
+
+
+# ----------------------------------------------------------------------------- Python fragments with every kind of AST node
+
+# Expressions that exercise every field of the `ast` argument lists and every expression node legal inside `eval` mode. The
+# parser scans the variables of the tokens on the LEFT of `~` while tokenising (Token.required_variables ->
+# utils.variables.get_expression_variables), so an exception in that scan on an unusual node escapes from get_terms/Formula.
+AST_EXPRS = [
+    # lambdas: every field of ast.arguments
+    "(lambda: y)()", "(lambda a: a + y)(x)", "(lambda a, b=y: a + b)(x)", "(lambda a, /, b: a + b)(x, y)",
+    "(lambda a, /, b=z, *, k: a + b + k)(x, k=y)", "(lambda *, k: k + 1)(k=y)", "(lambda *, k, j=y: k + j)(k=x)",
+    "(lambda *, k=y, j: k + j)(j=x)", "(lambda *args: args[0])(y)", "(lambda **kw: kw['k'])(k=y)",
+    "(lambda a, *args, k, **kw: a + k)(x, k=y)", "(lambda a=x, /, *rest, k=y, j, **kw: a + k + j)(j=z)",
+    "(lambda a: (lambda b: a + b + z))(x)(y)", "(lambda a: lambda *, k: a + k)(x)(k=y)", "(lambda f=lambda q=y: q: f())()",
+    "(lambda *, k=(lambda *, j: j)(j=y): k)()", "(lambda a, b=[t for t in y], *, c, d={x: 1}: a)(x, c=z)",
+    "map(lambda v, /, *, w: v + w, y)", "sorted(y, key=lambda r, *, rev=z: r)",
+    # comprehensions
+    "[a for a in y]", "[a + b for a in y for b in x if a if b]", "[a for a in y if a > z for b in a if b < w]",
+    "{a for a in y if a}", "{a: b for a, b in y}", "{k: [v for v in vs if v > z] for k, vs in y.items()}",
+    "sum(a * b for a, b in zip(x, y))", "[(lambda q, *, r=a: q + r)(b) for a in x for b in y]", "[[c for c in r] for r in y]",
+    "[a for a in (b for b in y)]", "[(a := v) for v in y]", "[a async for a in y]",
+    # conditional, boolean, comparison chains, walrus
+    "x if y > 0 else z", "x if y else z if w else v", "(t := y) + t", "(t := (lambda *, k: k)(k=y))", "x < y <= z != w",
+    "not x and y or z", "x is None or y is not z", "x in y and z not in w",
+    # calls: starred, keywords, attributes, methods on call results
+    "f(*y)", "f(**y)", "f(x, *y, k=z, **w)", "f(*[a for a in y], **{k: v for k, v in z})", "np.log(y).clip(x, z)", "y.a.b(x).c",
+    "f(x)(y)(z)", "f(g(h(y)))", "(x + y).sum()", "y.str.len()", "f(k=lambda *, j: j)",
+    # subscripts and slices
+    "y[0]", "y[x]", "y[1:2]", "y[::2]", "y[x:z:w]", "y[1:2, ::3]", "y[...]", "y[x, z]", "y[:, None]", "y[(lambda *, k: k)(k=0)]",
+    "y['a']['b']", "y[x][z:w]",
+    # displays, constants, f-strings, operators
+    "[x, y, *z]", "(x, y)", "{x, y}", "{x: y, **z}", "{}", "()", "[]", "{**y}", "{*y}", "f'{y}'", "f'{y!r:>{w}}'", "f'{y + 1:{x}.{z}f}'",
+    "f'{(lambda *, k: k)(k=y)}'", "'a' 'b'", "b'ab'", "1j * y", "-y ** +x", "~y", "y @ x", "y // x % z", "x << 2 | y >> 1 & z ^ w",
+    "True", "None", "...", "y if (lambda *, k: k)(k=x) else z", "(yield)", "(yield y)", "(yield from y)", "await y", "*y", "**y",
+    "lambda *, k: k", "lambda", "lambda *: 1", "lambda a, a: 1", "lambda *, k, k: 1", "(lambda *, k=: k)", "lambda /: 1",
+    "[a for a in]", "f(k=1, 2)", "f(**y, *z)", "y[", "x if y",
+]
+AST_WRAPS = ["{{{0}}}", "f({0})", "g(y, {0})", "h({0}, k={0})"]
+AST_POSITIONS = ["{0} ~ x", "y ~ {0}", "{0} | b ~ c", "y ~ a | {0}", "a + {0}:b ~ x + {0}", "[{0} ~ z] ~ w", "y ~ [{0} ~ z]", "{0}"]
+
+
+def _gen_pyexpr(rng, depth, names=("x", "y", "z", "w")):
+    """a small grammar of Python expressions over every node kind of `eval` mode"""
+    nm = lambda: rng.choice(names)
+    if depth <= 0:
+        return rng.choice([nm(), nm(), "1", "'s'", "None", nm() + ".a", nm() + "[0]"])
+    sub = lambda: _gen_pyexpr(rng, depth - 1, names)
+    r = rng.randrange(16)
+    if r == 0:  # lambda with a random argument list
+        parts, call = [], []
+        if rng.random() < 0.4:
+            parts += ["p" + (("=" + sub()) if rng.random() < 0.3 else ""), "/"]
+            call.append(sub())
+        if rng.random() < 0.6:
+            parts.append("a" + (("=" + sub()) if rng.random() < 0.4 else ""))
+            call.append(sub())
+        if rng.random() < 0.3:
+            parts.append("*args")
+        kw = rng.randint(0, 2)
+        if kw and "*args" not in parts:
+            parts.append("*")
+        for i in range(kw):
+            parts.append(f"k{i}" + (("=" + sub()) if rng.random() < 0.5 else ""))
+            call.append(f"k{i}={sub()}")
+        if rng.random() < 0.3:
+            parts.append("**kw")
+        body = _gen_pyexpr(rng, depth - 1, tuple(names) + ("a", "k0"))
+        return f"(lambda {', '.join(parts)}: {body})({', '.join(call)})"
+    if r == 1:
+        gens = " ".join(f"for t{i} in {sub()}" + (f" if {sub()}" if rng.random() < 0.5 else "") for i in range(rng.randint(1, 2)))
+        elt = _gen_pyexpr(rng, depth - 1, tuple(names) + ("t0",))
+        return rng.choice(["[{0} {1}]", "{{{0} {1}}}", "sum({0} {1})", "{{{0}: {0} {1}}}"]).format(elt, gens)
+    if r == 2:
+        return f"({sub()} if {sub()} else {sub()})"
+    if r == 3:
+        return f"(v := {sub()})"
+    if r == 4:
+        return f"f({sub()}, *{sub()}, k={sub()}, **{sub()})"
+    if r == 5:
+        return f"{nm()}[{sub()}:{sub()}, ::{sub()}]"
+    if r == 6:
+        return "f'{" + sub().replace("'", '"') + "!r:>{" + nm() + "}}'"
+    if r == 7:
+        return rng.choice(["[{0}, *{1}]", "{{{0}: {1}, **{2}}}", "{{{0}, {1}}}", "({0}, {1})"]).format(sub(), sub(), sub())
+    if r == 8:
+        return f"{sub()} {rng.choice(['+', '-', '*', '@', '//', '%', '**', '<<', '|', '&', '^', 'and', 'or', '<', 'is not', 'not in'])} {sub()}"
+    if r == 9:
+        return f"{rng.choice(['-', '~', 'not '])}{sub()}"
+    if r == 10:
+        return f"{nm()}.m({sub()}).attr"
+    if r == 11:
+        return f"g({sub()})({sub()})"
+    if r == 12:
+        return f"({sub()})[{sub()}]"
+    if r == 13:
+        return f"{nm()} < {sub()} <= {sub()}"
+    return f"h({sub()}, {sub()})"
+
+
+def ast_fragment_cases(rng, tier, nrand):
+    i = 0
+    for e in AST_EXPRS:  # fixed table, every seed: every expression x {lhs, rhs, `|` parts, multistage, alone}
+        for k, po in enumerate(AST_POSITIONS):
+            frag = AST_WRAPS[(i + k) % len(AST_WRAPS)].format(e)
+            cfg = dict(ALL_CFG[(i + k) % len(ALL_CFG)])
+            if k < 2:  # the left- and right-hand-side positions always under a parser that accepts `~`
+                cfg["twosided"] = True
+            if k in (2, 3):
+                cfg.update(twosided=True, multipart=True)
+            if "[" in po:
+                cfg.update(twosided=True, multistage=True)
+            yield dict(kind="astfrag", s=po.format(frag), cfg=cfg, avail=None)
+        i += 1
+    for _ in range(nrand // 4):  # random mixes from the expression grammar
+        e = _gen_pyexpr(rng, rng.choice([1, 2, 2, 3]))
+        frag = rng.choice(AST_WRAPS).format(e)
+        cfg = dict(rng.choice(ALL_CFG))
+        if rng.random() < 0.7:
+            cfg["twosided"] = True
+        yield dict(kind="astfrag", s=rng.choice(AST_POSITIONS).format(frag), cfg=cfg, avail=None)
 
 
 # ----------------------------------------------------------------------------- Python fragments CPython cannot digest
